@@ -64,7 +64,7 @@ def process_docs(run, cases, observations, stream="docs"):
         doc = case["doc"]
         shapes = [s["coefficients"]["model_type"] for s in doc["submodels"].values()]
         key = vlib.sha([doc, case["cls"]])
-        run.count(key, nontrivial=True)
+        run.count(key, nontrivial="rejected" not in o and "crash" not in o)
         run.dist("docs: profile", case["profile"] + ("" if not case["tamper"] else " tampered:" + case["tamper"]))
         run.dist("docs: outcome", "rejected:" + o["rejected"] if "rejected" in o else "accepted")
         run.dist("docs: submodels", len(shapes))
@@ -90,8 +90,7 @@ def process_docs(run, cases, observations, stream="docs"):
                               "parameters (%s, T=%r): predicted %r, formula %r" % (case["cls"], f["shape"], f["T"], f["predicted"], f["formula"]),
                               case=case, observation=f, generator="c01lib.gen_doc")
             n_rows = sum(len(r) for r in o["preds"].values())
-            run.dist("docs: temperatures evaluated", "rows")
-            run.cov["evaluations"] += 0
+            run.dist("docs: prediction rows compared", n_rows // 20 * 20)
             run.sample({"stream": stream, "class": case["cls"], "profile": case["profile"], "split": "__".join(doc["submodels"]),
                         "shapes": shapes, "tz": doc["info"]["baseline_timezone"], "prediction_rows": n_rows,
                         "text_equal": o["rt"].get("text_equal"), "predict_sets": [(p["set"], p.get("identical")) for p in o["rt"].get("predict", [])]})
@@ -192,6 +191,11 @@ def process_daily_states(run, results):
 
 # ----------------------------------------------------------------------------------------------------- main
 
+def scale():
+    """VERIF_C01_SCALE < 1 shrinks the thorough tier (smoke tests of the thorough code path only)"""
+    return float(os.environ.get("VERIF_C01_SCALE", "1"))
+
+
 def fit_jobs(run):
     r = run.rng
     if run.quick():
@@ -201,11 +205,11 @@ def fit_jobs(run):
                 ("hourly", "float-width"), ("caltrack", "caltrack")]
     else:
         plan = []
-        for i in range(40):
+        for i in range(max(3, int(40 * scale()))):
             plan.append(("daily", list(c01fits.DAILY_PROFILES)[i % len(c01fits.DAILY_PROFILES)]))
             plan.append(("billing", list(c01fits.BILLING_PROFILES)[i % len(c01fits.BILLING_PROFILES)]))
             plan.append(("hourly", list(c01fits.HOURLY_PROFILES)[i % len(c01fits.HOURLY_PROFILES)]))
-        plan += [("caltrack", "caltrack")] * 12
+        plan += [("caltrack", "caltrack")] * max(1, int(12 * scale()))
     # longest first
     order = {"caltrack": 0, "daily": 1, "hourly": 2, "billing": 3}
     jobs = [{"family": f, "profile": p, "seed": r.randrange(2**31)} for f, p in plan]
@@ -271,7 +275,7 @@ def main():
             corpus = os.path.join(vlib.VERIF, "corpus", "C01.json")
             if os.path.exists(corpus):
                 cases += json.load(open(corpus))
-            n = run.n(300, 100000 // 8)
+            n = run.n(300, max(300, int(12500 * scale())))
             for k in range(n):
                 cases.append(c01lib.gen_doc(run.rng, k, splits, corner=(k % 97 == 13)))
             for i, c in enumerate(cases):
